@@ -45,7 +45,19 @@ def trace_of(env: Any) -> List[Tuple[str, int]]:
     return [(ev, i) for ev, i, _ in env.log]
 
 
-def twin_case(pi: int, ri: int, k: Any, reps: int, mode: int) -> Dict[str, Any]:
+class Wrapped:
+    """A custom stack item (e.g. a scheduler's task object) whose unwrap hook returns the wrapped generator-like object."""
+
+    def __init__(self, obj: Any):
+        self.obj = obj
+
+
+@stackscope.unwrap_stackitem.register(Wrapped)
+def _unwrap_wrapped(w: Wrapped) -> Any:
+    return w.obj
+
+
+def twin_case(pi: int, ri: int, k: Any, reps: int, mode: int, via: int = 0) -> Dict[str, Any]:
     """Run program pi twice with run ri (script / throw point): once unobserved, once with `reps`
     extractions at the suspension whose index equals the symbolic k.  mode 0: trickery, 1: referents."""
     from stackscope import _lowlevel
@@ -71,59 +83,72 @@ def twin_case(pi: int, ri: int, k: Any, reps: int, mode: int) -> Dict[str, Any]:
         dyn.Env = RecEnv  # type: ignore[misc]
         outcome: Any = None
         try:
+            def observe_now(gen: Any, frame: Any, active: List[Any]) -> None:
+                hit["n"] += 1
+                # managers reachable ONLY from the value stack (no `as` target, no other local): accessing
+                # frame.f_locals makes CPython cache a dict of the locals on the frame itself, which is the
+                # target keeping its own locals, not stackscope keeping anything
+                local_ids = {id(v) for v in frame.f_locals.values()}
+                mgrs = [m for m in active if id(m) not in local_ids]
+                hit["wr_gen"] = weakref.ref(gen)
+                rc_before = [sys.getrefcount(m) for m in mgrs]
+                ref_before = [set(map(id, gc.get_referrers(m))) for m in mgrs]
+                frc_before = sys.getrefcount(frame)
+                stacks = []
+                a = b = None
+                # via == 1: the target is reached through a custom stack item whose unwrap hook returns it as a single item
+                target = Wrapped(gen) if via == 1 else gen
+                for _ in range(reps):
+                    with contextlib.redirect_stderr(io.StringIO()):
+                        stacks.append(stackscope.extract(target))
+                for a, b in zip(stacks, stacks[1:]):
+                    if a != b:
+                        hit["why"] = "two extractions of the unchanged target are not equal"
+                if any(s.error is not None for s in stacks) and desc["tail"] not in ("try_except_last", "if_return_value"):
+                    hit["why"] = f"extraction error {stacks[0].error!r}"
+                if any(not s.frames or s.frames[0].pyframe is not frame for s in stacks):
+                    hit["why"] = "the extraction does not start with the target's own frame"
+                wr = [weakref.ref(s.frames[0]) for s in stacks if s.frames]
+                pyframes = [f.pyframe for s in stacks for f in s.frames]
+                del stacks, a, b, target
+                gc.collect()
+                rc_after = [sys.getrefcount(m) for m in mgrs]
+                if rc_after != rc_before:
+                    # the only tolerated new holder is CPython's own cache of a target frame's locals
+                    # (frame.f_locals materialises a dict that the frame keeps): the target holding itself
+                    own = {id(f.f_locals) for f in pyframes}
+                    for j in range(len(mgrs)):
+                        cur = gc.get_referrers(mgrs[j])
+                        new = [r for r in cur if id(r) not in ref_before[j] and id(r) not in own and r is not mgrs and r is not cur]
+                        if new:
+                            hit["why"] = (f"after the results were dropped the manager {mgrs[j]!r} has a new holder "
+                                          f"{type(new[0]).__name__}: {str(new[0])[:80]}")
+                        del cur, new
+                del pyframes
+                if sys.getrefcount(frame) != frc_before:
+                    hit["why"] = "reference count of the frame changed after the results were dropped"
+                if any(w() is not None for w in wr):
+                    hit["why"] = "a returned Frame object is still alive after the results were dropped"
+
+            def on_created(obj: Any) -> None:
+                if observe and k == 0:  # symbolic: extraction BEFORE the target has been started
+                    fr = getattr(obj, "gi_frame", None) or getattr(obj, "cr_frame", None) or getattr(obj, "ag_frame", None)
+                    observe_now(obj, fr, [])
+                elif not observe:
+                    pass
+
             def on_suspend(ob: Any) -> None:
                 yielded.append(ob.lasti)
                 if not observe:
                     return
                 if ob.step == k:  # symbolic
-                    hit["n"] += 1
-                    # managers reachable ONLY from the value stack (no `as` target, no other local): accessing
-                    # frame.f_locals makes CPython cache a dict of the locals on the frame itself, which is the
-                    # target keeping its own locals, not stackscope keeping anything
-                    local_ids = {id(v) for v in ob.frame.f_locals.values()}
-                    mgrs = [m for m in ob.active if id(m) not in local_ids]
-                    gen = ob.gen
-                    hit["wr_gen"] = weakref.ref(gen)
-                    rc_before = [sys.getrefcount(m) for m in mgrs]
-                    ref_before = [set(map(id, gc.get_referrers(m))) for m in mgrs]
-                    frc_before = sys.getrefcount(ob.frame)
-                    stacks = []
-                    a = b = None
-                    for _ in range(reps):
-                        with contextlib.redirect_stderr(io.StringIO()):
-                            stacks.append(stackscope.extract(gen))
-                    for a, b in zip(stacks, stacks[1:]):
-                        if a != b:
-                            hit["why"] = "two extractions of the unchanged target are not equal"
-                    if any(s.error is not None for s in stacks) and desc["tail"] not in ("try_except_last", "if_return_value"):
-                        hit["why"] = f"extraction error {stacks[0].error!r}"
-                    wr = [weakref.ref(s.frames[0]) for s in stacks if s.frames]
-                    pyframes = [f.pyframe for s in stacks for f in s.frames]
-                    del stacks, a, b
-                    gc.collect()
-                    rc_after = [sys.getrefcount(m) for m in mgrs]
-                    if rc_after != rc_before:
-                        # the only tolerated new holder is CPython's own cache of a target frame's locals
-                        # (frame.f_locals materialises a dict that the frame keeps): the target holding itself
-                        own = {id(f.f_locals) for f in pyframes}
-                        for j in range(len(mgrs)):
-                            cur = gc.get_referrers(mgrs[j])
-                            new = [r for r in cur if id(r) not in ref_before[j] and id(r) not in own and r is not mgrs and r is not cur]
-                            if new:
-                                hit["why"] = (f"after the results were dropped the manager {mgrs[j]!r} has a new holder "
-                                              f"{type(new[0]).__name__}: {str(new[0])[:80]}")
-                            del cur, new
-                    del pyframes
-                    if sys.getrefcount(ob.frame) != frc_before:
-                        hit["why"] = "reference count of the frame changed after the results were dropped"
-                    if any(w() is not None for w in wr):
-                        hit["why"] = "a returned Frame object is still alive after the results were dropped"
+                    observe_now(ob.gen, ob.frame, ob.active)
 
             if mode == 1:
                 _lowlevel.set_trickery_enabled(False)
             try:
                 try:
-                    dyn.drive(prog, kind, script, throw_at, on_suspend)
+                    dyn.drive(prog, kind, script, throw_at, on_suspend, None, on_created)
                     outcome = "finished"
                 except BaseException as ex:  # noqa
                     outcome = ("raised", type(ex).__name__)
@@ -164,14 +189,15 @@ def _shard(sh: Dict[str, Any]) -> Dict[str, Any]:
         ri = e.choice("run", nruns)
         mode = e.choice("analysis_mode", 2)
         reps = 1 + e.choice("repetitions", 2)
-        k = e.int("suspension_index", 1, None)
-        r = twin_case(pi, ri, k, reps, mode)
+        k = e.int("suspension_index", 0, None)      # 0: before the target has been started
+        via = e.choice("reached_through_a_custom_stack_item", 2) if reps == 1 else 0
+        r = twin_case(pi, ri, k, reps, mode, via)
         if r["hit"]:
             reached[0] += 1
         if len(samples) < 1 and r["hit"]:
-            samples.append({"program": desc, "run": ri, "mode": mode, "repetitions": reps, "k(one model value)": e.model().get("suspension_index")})
+            samples.append({"program": desc, "run": ri, "mode": mode, "via_custom_item": via, "repetitions": reps, "k(one model value)": e.model().get("suspension_index")})
         if not r["ok"] and len(cex) < 2:
-            cex.append({"prog": pi, "run": ri, "k": e.model().get("suspension_index"), "reps": reps, "mode": mode, "why": r["why"]})
+            cex.append({"prog": pi, "run": ri, "k": e.model().get("suspension_index"), "reps": reps, "mode": mode, "via": via, "why": r["why"]})
 
     eng = Engine(max_seconds=600)
     eng.explore(harness)
@@ -186,7 +212,8 @@ def run(rep: Any, tier: str, seed: int) -> None:
     ps = programs()
     n = len(ps) if tier == "thorough" else min(len(ps), 18)
     rep.bounds = {"programs": f"{n} of the C01 grammar (every kind), all decision scripts and throw points of each",
-                  "observation": "at the suspension whose index equals an unbounded symbolic k (one path per suspension), 1 or 2 extractions, trickery or referents mode"}
+                  "observation": "at the suspension whose index equals an unbounded symbolic k (one path per suspension; k = 0 is the not yet started target), 1 or 2 extractions, trickery or referents mode, "
+                                 "the target extracted directly or through a custom stack item whose unwrap hook returns it"}
     rep.outside = ["crashes that would only show many operations later", "value-stack objects other than the managers", "extraction from inside a running frame (covered for exactness by C02, not for purity here)",
                    "CPython 3.9-3.11"]
     rep.assumptions = ["symx does not trace and its proxies never reach the observed objects: the measured reference counts are those of the real run",
@@ -197,7 +224,7 @@ def run(rep: Any, tier: str, seed: int) -> None:
 
 
 def replay(c: Dict[str, Any]) -> Dict[str, Any]:
-    r = twin_case(c["prog"], c["run"], c["k"], c["reps"], c["mode"])
+    r = twin_case(c["prog"], c["run"], c["k"], c["reps"], c["mode"], c.get("via", 0))
     return {"status": "reproduces" if not r["ok"] else "not-reproduced", "detail": r}
 
 
